@@ -9,8 +9,10 @@ package server
 import (
 	"bytes"
 	"context"
+	"encoding/hex"
 	"fmt"
 	"io"
+	"strings"
 	"testing"
 
 	pb "github.com/buchgr/bazel-remote/v2/genproto/build/bazel/remote/execution/v2"
@@ -36,13 +38,13 @@ func vContent(rng *vRand, kind, n int) []byte {
 }
 
 // vBSRead reads a resource; returns the delivered bytes and the final status code.
-func (f *vFix) vBSRead(name string, off, limit int64) ([]byte, codes.Code, int) {
+func (f *vFix) vBSRead(name string, off, limit int64) ([]byte, codes.Code, []string) {
 	st, err := f.bs.Read(context.Background(), &bytestream.ReadRequest{ResourceName: name, ReadOffset: off, ReadLimit: limit})
 	if err != nil {
-		return nil, status.Code(err), 0
+		return nil, status.Code(err), nil
 	}
 	var got []byte
-	msgs := 0
+	var msgs []string
 	for {
 		r, err := st.Recv()
 		if err == io.EOF {
@@ -51,9 +53,32 @@ func (f *vFix) vBSRead(name string, off, limit int64) ([]byte, codes.Code, int) 
 		if err != nil {
 			return got, status.Code(err), msgs
 		}
-		msgs++
+		msgs = append(msgs, fmt.Sprint(len(r.Data)))
 		got = append(got, r.Data...)
 	}
+}
+
+// vReadOp records one ByteStream.Read for the model: the model is told which message sizes the blob
+// reader produced and must reproduce the status code and the amount delivered.
+func vReadOp(rec *vRecorder, name string, off, limit int64, present bool, total int64, got []byte, c codes.Code, msgs []string) {
+	sizes := msgs
+	if c != codes.OK && total >= 0 && int64(len(got)) < total {
+		// the read stopped before a message that did not fit the budget: tell the model that the
+		// reader had (at least) the rest of the range to hand out next
+		sizes = append(append([]string{}, msgs...), fmt.Sprint(total-int64(len(got))))
+	}
+	ms := "-"
+	if len(sizes) > 0 {
+		ms = strings.Join(sizes, ",")
+	}
+	res := c.String()
+	if c == codes.OK || c == codes.OutOfRange && len(got) > 0 {
+		res = fmt.Sprintf("%s delivered=%d", c.String(), len(got))
+	}
+	if c == codes.OutOfRange && len(got) == 0 && ms != "-" && limit != 0 {
+		res = "OutOfRange delivered=0"
+	}
+	rec.Op(fmt.Sprintf("bs.read name=%s off=%d limit=%d present=%d msgs=%s", hex.EncodeToString([]byte(name)), off, limit, b2n(present), ms), res)
 }
 
 func TestVerifServerReadPaths(t *testing.T) {
@@ -189,7 +214,9 @@ func TestVerifServerReadPaths(t *testing.T) {
 					if lim < 0 || (lim != 0 && rng.Pct(50)) {
 						continue
 					}
-					got, c, _ := f.vBSRead(fmt.Sprintf("inst/blobs/%s/%d", b.hash, n), off, lim)
+					rname := fmt.Sprintf("inst/blobs/%s/%d", b.hash, n)
+					got, c, msgs := f.vBSRead(rname, off, lim)
+					vReadOp(rec, rname, off, lim, true, rem, got, c, msgs)
 					rec.Count("bsread." + c.String())
 					want := b.data[off:]
 					if !bytes.HasPrefix(want, got) {
@@ -205,12 +232,41 @@ func TestVerifServerReadPaths(t *testing.T) {
 						viol("bs-error", fmt.Sprintf("Read(offset %d, limit %d) of a %d-byte blob failed: %s", off, lim, n, c))
 					}
 				}
-				got, c, _ := f.vBSRead(fmt.Sprintf("compressed-blobs/zstd/%s/%d", b.hash, n), off, 0)
+				zname := fmt.Sprintf("compressed-blobs/zstd/%s/%d", b.hash, n)
+				got, c, zmsgs := f.vBSRead(zname, off, 0)
+				vReadOp(rec, zname, off, 0, true, -1, got, c, zmsgs)
 				if c != codes.OK {
 					viol("bs-zstd-error", fmt.Sprintf("compressed Read(offset %d) of a %d-byte blob failed: %s", off, n, c))
 				} else if dec, err := vUnzstd(got); err != nil || !bytes.Equal(dec, b.data[off:]) {
 					viol("bs-zstd", fmt.Sprintf("compressed Read(offset %d) of a %d-byte blob decodes to %d bytes (err %v), want %d", off, n, len(dec), err, n-off))
 				}
+			}
+		}
+		// reads that are refused, and reads of an absent blob
+		rec.Case()
+		{
+			b := blobs[0]
+			n := int64(len(b.data))
+			absent := vSha([]byte(fmt.Sprintf("absent-%d", round)))
+			for _, q := range []struct {
+				name     string
+				off, lim int64
+				present  bool
+			}{
+				{fmt.Sprintf("blobs/%s/%d", b.hash, n), -1, 0, true},
+				{fmt.Sprintf("blobs/%s/%d", b.hash, n), n + 1, 0, true},
+				{fmt.Sprintf("blobs/%s/%d", b.hash, n), 0, -5, true},
+				{fmt.Sprintf("compressed-blobs/zstd/%s/%d", b.hash, n), 0, 10, true},
+				{fmt.Sprintf("compressed-blobs/zstd/%s/%d", b.hash, n), n, 0, true},
+				{fmt.Sprintf("blobs/%s/%d", absent, 77), 0, 0, false},
+				{fmt.Sprintf("blobs/%s/%d", absent, 77), 77, 0, false},
+				{fmt.Sprintf("compressed-blobs/zstd/%s/%d", absent, 77), 5, 0, false},
+				{fmt.Sprintf("blobs/%s", b.hash), 0, 0, true},
+				{fmt.Sprintf("compressed-blobs/gzip/%s/%d", b.hash, n), 0, 0, true},
+			} {
+				got, c, msgs := f.vBSRead(q.name, q.off, q.lim)
+				vReadOp(rec, q.name, q.off, q.lim, q.present, -1, got, c, msgs)
+				rec.Count("bsread-refused." + c.String())
 			}
 		}
 		// GetTree
